@@ -125,6 +125,7 @@ type Interp struct {
 	CutPrefix string
 	CutAfter  int
 	cutCount  int
+	rangeNo   int
 	fnStack   []*ssa.Function
 	// SymLens gives the length of opaque slices by name; index expressions into them are bounds-checked
 	// when index and length are comparable.
@@ -1303,8 +1304,33 @@ func (in *Interp) exec(fr *frame, ins ssa.Instruction) {
 		switch r := v.(type) {
 		case *MapV:
 			// iterate over a snapshot of the keys present now (entries added during iteration
-			// may or may not be visited in Go; they are not visited here)
-			fr.env[x] = &mapIter{m: &MapV{Keys: append([]Value{}, r.Keys...), Vals: append([]Value{}, r.Vals...)}}
+			// may or may not be visited in Go; they are not visited here). Go's iteration order is
+			// unspecified: for small maps every order is explored, larger ones are walked backwards.
+			keys, vals := append([]Value{}, r.Keys...), append([]Value{}, r.Vals...)
+			switch n := len(keys); {
+			case n == 2 || n == 3:
+				in.rangeNo++
+				perms := [][]int{{0, 1}, {1, 0}}
+				if n == 3 {
+					perms = [][]int{{0, 1, 2}, {0, 2, 1}, {1, 0, 2}, {1, 2, 0}, {2, 0, 1}, {2, 1, 0}}
+				}
+				labels := make([]string, len(perms))
+				for i := range perms {
+					labels[i] = fmt.Sprint(perms[i])
+				}
+				p := perms[in.Choose(fmt.Sprintf("maporder#%d", in.rangeNo), labels)]
+				k2, v2 := make([]Value, n), make([]Value, n)
+				for i, j := range p {
+					k2[i], v2[i] = keys[j], vals[j]
+				}
+				keys, vals = k2, v2
+			case n > 3:
+				for i, j := 0, n-1; i < j; i, j = i+1, j-1 {
+					keys[i], keys[j] = keys[j], keys[i]
+					vals[i], vals[j] = vals[j], vals[i]
+				}
+			}
+			fr.env[x] = &mapIter{m: &MapV{Keys: keys, Vals: vals}}
 		case NilV:
 			fr.env[x] = &mapIter{m: &MapV{}}
 		case string:
